@@ -196,6 +196,10 @@ elab "ext_step" ih:(ident)? : tactic => withMainContext do
   let t ← instantiateMVars (← g.getType)
   unless t.isAppOfArity ``Ext 2 do throwError "ext_step: not an Ext goal"
   let e := t.appArg!
+  if t.appFn!.appArg! == e then
+    g.assign (mkApp (mkConst ``Ext.refl) e)
+    replaceMainGoal []
+    return
   match extHeadOf e with
   | none => throwError "ext_step: no head"
   | some (.fvar _) =>
@@ -290,7 +294,7 @@ elab "ext_let" : tactic => withMainContext do
       let g1 ← mkFreshExprSyntheticOpaqueMVar (mkApp2 (mkConst ``Ext) s0 v)
       let ty2 ← withLocalDeclD n ty fun x => do
         withLocalDeclD `hx (mkApp2 (mkConst ``Ext) s0 x) fun hx => do
-          mkForallFVars #[x, hx] (mkApp2 (mkConst ``Ext) s0 (k (b.instantiate1 x)))
+          mkForallFVars #[x, hx] (mkApp2 (mkConst ``Ext) s0 (k ((b.instantiate1 x).replace fun e => if e == v then some x else none)))
       let g2 ← mkFreshExprSyntheticOpaqueMVar ty2
       g.assign (mkApp2 g2 v g1)
       let (_, g2') ← g2.mvarId!.introNP 2
